@@ -52,14 +52,15 @@ func bound(tier string) string {
 			"every permutation of the defclass forms each (up to 120). " +
 			"Redefinition of any one class (slot s given a new initform, all slots removed, initarg instead of initform, slot u added, superclasses reversed / first dropped / one added) " +
 			"at every later point of every order: 2-class DAGs x 5-pair alphabet and 3-class DAGs x 3-pair alphabet, warm and cold dispatch cache; 3-class DAGs x {none, initform, shared initarg k on both slots} cold; " +
-			"4-class DAGs with <= 2 direct superclasses, slot s with initform in every class (cold). " +
+			"4-class DAGs with <= 2 direct superclasses, slot s with initform in every class (cold); the quick tier's top-class redefinition family on 4 four-class shapes. " +
 			"All subsets of valid initargs (a, b, shared k). CUT relative to the design (time, measured on a machine shared with 10 other harness builds): 4 classes x 3-pair instead of richer alphabets; " +
 			"5 classes restricted to 10 shapes x 2-pair alphabet; 4-class redefinition restricted to one slot alphabet entry and <= 2 superclasses."
 	}
 	return "no redefinition: 1 class x full slot alphabet (32 option pairs for slots s,u); both 2-class DAGs x 13-pair curated alphabet; all 10 3-class DAGs x 8-pair alphabet; " +
 		"all 160 4-class DAGs with slot s :initform in every class; initform nil: 1-2 classes x 5-pair, 3 classes x 3-pair alphabet; every permutation of the defclass forms each. " +
-		"Redefinition of any one class (7 kinds) at every later point of every order: 2-class DAGs x 3-pair alphabet, 3-class DAGs x 2-pair alphabet, warm and cold dispatch cache. " +
-		"All subsets of valid initargs. CUT relative to the design: slot alphabets smaller than in thorough; 4 classes without slot variation; no 5-class cases; no 4-class redefinition."
+		"Redefinition of any one class (7 kinds) at every later point of every order: 2-class DAGs x 3-pair alphabet, 3-class DAGs x 2-pair alphabet, warm and cold dispatch cache; " +
+		"redefinition of the TOP class of 4 four-class shapes (diamond in both middle orders, diamond + direct top, chain + direct top) x 2-pair alphabet x every applicable kind x warm/cold x all 60 orders. " +
+		"All subsets of valid initargs. CUT relative to the design: slot alphabets smaller than in thorough; 4 classes without slot variation except in the top-redefinition family; no 5-class cases; 4-class redefinition only of the top class of 4 shapes."
 }
 
 // ---------------------------------------------------------------- running one history
